@@ -29,7 +29,8 @@ contract(f"{M}:RtcpRrPacket.parse", params={"data": "bytes", "count": "int"}, re
          locals={"reports": "list[RtcpReceiverInfo]"},
          loops={0: dict(kind="for", index="r",
                         invariant=["pos == 4 + 24 * r", "len(reports) == r", "fresh(reports)",
-                                   "forall(lambda j: ri_at(data, 4 + 24 * j, reports[j]) and ri_wire_ok(reports[j]), 0, r)"],
+                                   "forall(lambda j: ri_wire_ok(reports[j]), 0, r)",
+                                   "forall(lambda j: ri_at(data, 4 + 24 * j, reports[j]), 0, r)"],
                         modifies=["content(reports)"])},
          fresh_result=True, tags=["C07", "C05"],
          witness=[{"data": bytes(range(28)), "count": 1}])
